@@ -92,7 +92,7 @@ Section Reader.
             if fin then
               (* frame complete: verify checksum *)
               if negb (in_range t target) then RTrap 53 else
-              if t_flag t && negb (H (rev acc') mod 4294967296 =? e_k (ent t target))
+              if t_flag t && negb (H (revT acc') mod 4294967296 =? e_k (ent t target))
               then RErr sk_E_corruption_detected dst' st2
               else if r_doff st2 <? endpos then
                 match offset_to_frame t (r_doff st2) with
